@@ -48,11 +48,30 @@ def _mul(x, y):
     return _num(x) * _num(y)
 
 
+def _recip(b):
+    """reciprocal variable r with r*b == 1 (one per distinct denominator term); definition in ENV.defs"""
+    k = ("recip", z3.simplify(b).sexpr())
+    if k in _TRIG and _TRIG[k][1] is ENV:
+        return _TRIG[k][0]
+    r = ENV.new("recip")
+    ENV.defs.append(("recip", r, r * b == 1))
+    _TRIG[k] = (r, ENV)
+    return r
+
+
 def _div(x, y):
+    if ENV.abstract_scalars and not isinstance(_num(y) if not isinstance(y, D) else y.v, D):
+        yv = _raw(y)
+        if not z3.is_rational_value(z3.simplify(yv)) and (not isinstance(x, D) or not isinstance(x.v, D)) and (not isinstance(y, D) or _is_zero(y.d)):
+            return _mul(x, D(_recip(yv)))
     if isinstance(x, D) or isinstance(y, D):
         x, y = D.lift(x), D.lift(y)
         return D(_div(x.v, y.v), _div(_sub(_mul(x.d, y.v), _mul(x.v, y.d)), _mul(y.v, y.v)))
     return _num(x) / _num(y)
+
+
+def _is_zero(t):
+    return (not isinstance(t, D)) and z3.is_rational_value(z3.simplify(_num(t))) and z3.simplify(_num(t)).as_fraction() == 0
 
 
 def _neg(x):
@@ -103,6 +122,9 @@ class D:
     __hash__ = None
 
 
+_TRIG = {}      # memo tables keyed on term text: (c,s) pairs, sqrt roots, reciprocals (per Env)
+
+
 def Q(x):
     """exact rational literal"""
     if isinstance(x, str):
@@ -134,6 +156,8 @@ def is_scalar(x):
 # ----------------------------------------------------------------------
 class Env:
     def __init__(self):
+        self.abstract_scalars = False   # let-abstraction of scalar factors of vectors (see let_scalar)
+        self.defs = []       # definitions t == term of the abstracted scalars
         self.side = []       # z3 BoolRefs assumed
         self.fresh = 0
         self.notes = []
@@ -175,7 +199,6 @@ class Angle:
         return a
 
 
-_TRIG = {}
 
 
 def _cs_pair(e):
@@ -218,8 +241,13 @@ def sqrt(e):
     if isinstance(e.v, D):
         r = sqrt(e.v)
     else:
-        r = ENV.new("sqrt")
-        ENV.assume(z3.And(r >= 0, r * r == e.v))
+        k = ("sqrt", z3.simplify(e.v).sexpr())
+        if k in _TRIG and _TRIG[k][1] is ENV:
+            r = _TRIG[k][0]                   # same radicand term -> same root variable
+        else:
+            r = ENV.new("sqrt")
+            ENV.assume(z3.And(r >= 0, r * r == e.v))
+            _TRIG[k] = (r, ENV)
     return D(r, _div(e.d, _mul(2, r)))
 
 
@@ -248,6 +276,21 @@ def cube(x):
 HOOKS = {}
 
 
+def let_scalar(x):
+    """Let-abstraction (opaque / reveal): when ENV.abstract_scalars is on, a non-trivial scalar that
+    multiplies or divides a vector is replaced by a fresh variable t, and the definition t == term is
+    recorded in ENV.defs. A goal proved WITHOUT a definition holds for every value of t (sound
+    generalisation); goals that need the value add ENV.defs to their hypotheses."""
+    if not ENV.abstract_scalars or not isinstance(x, D):
+        return x
+    v = z3.simplify(_raw(x))
+    if z3.is_const(v) or z3.is_rational_value(v):
+        return x
+    t = ENV.new("let")
+    ENV.defs.append(("let", t, t == _raw(x)))     # unsimplified: the same term a path condition on x mentions
+    return D(t)
+
+
 class Vec:
     def __init__(self, *e):
         if len(e) == 1 and isinstance(e[0], (list, tuple)):
@@ -267,15 +310,25 @@ class Vec:
     def __pos__(a): return a
     def __mul__(a, b):
         if is_scalar(b):
+            b = let_scalar(b)
             return a._new(x * b for x in a.e)
         if isinstance(b, Row):           # outer product
             return Mat([[x * y for y in b.e] for x in a.e])
         return NotImplemented
     def __rmul__(a, b):
         if is_scalar(b):
+            b = let_scalar(b)
             return a._new(b * x for x in a.e)
         return NotImplemented
-    def __truediv__(a, b): return a._new(x / b for x in a.e)
+    def __truediv__(a, b):
+        if ENV.abstract_scalars and isinstance(b, D):
+            # vector / scalar as multiplication by a reciprocal variable r with r*b == 1 (b != 0 is then
+            # part of the hypotheses; the definition goes to ENV.defs like the other let-abstractions)
+            b = let_scalar(b)
+            r = D(_recip(_raw(b)))
+            return a._new(x * r for x in a.e)
+        b = let_scalar(b)
+        return a._new(x / b for x in a.e)
     def __invert__(a): return Row(list(a.e))
     def __mod__(a, b):                    # cross product
         if isinstance(b, Vec) and len(a) == 3 and len(b) == 3:
@@ -471,6 +524,8 @@ def elements(x):
 
 
 def vmap(f, x):
+    if isinstance(x, SpatialVec):
+        return SpatialVec(vmap(f, x.e[0]), vmap(f, x.e[1]))
     if isinstance(x, Mat):
         return Mat([[f(e) for e in r] for r in x.m])
     if isinstance(x, Row):
